@@ -258,7 +258,7 @@ func (raw *RawConfig) ProcessRawConfig(worldState common.WorldState) (local Loca
 	if raw.KeepAlive <= 0 {
 		remote.KeepAlive = -1
 	} else {
-		remote.KeepAlive = remote.KeepAlive * time.Second
+		remote.KeepAlive = time.Duration(raw.KeepAlive) * time.Second
 	}
 
 	if raw.LocalHost == "" {
